@@ -739,3 +739,20 @@ def encode_outcome(t, v):
     if enc_ok(t, v):
         return Ret(enc_val(t, v))
     return Raise(bv.ValidationError)
+
+
+def same(a, b):
+    """the same value: identical objects, or equal plain data of the same type"""
+    if a is b:
+        return True
+    if type(a) is not type(b):
+        return False
+    if isinstance(a, (list, tuple)):
+        return len(a) == len(b) and all(same(x, y) for x, y in zip(a, b))
+    if isinstance(a, dict):
+        return list(a) == list(b) and all(same(a[k], b[k]) for k in a)
+    if isinstance(a, float):
+        return same_float(a, b)
+    if isinstance(a, (bool, int, str, bytes)):
+        return a == b
+    return False
